@@ -681,6 +681,8 @@ LABoundStore::BoundValuePair LASolver::getBoundsValueForRealVar(const Real & c, 
 
 lbool LASolver::getPolaritySuggestion(PTRef ptref) const {
     if (!this->isInformed(ptref)) { return l_Undef; }
+    // Atoms declared before the first check are only registered in initSolver(): nothing to suggest yet
+    if (status == INIT) { return l_Undef; }
     LVRef var = this->getVarForLeq(ptref);
     LABoundRefPair bounds = getBoundRefPair(ptref);
     assert( bounds.pos != LABoundRef_Undef && bounds.neg != LABoundRef_Undef );
